@@ -365,7 +365,14 @@ class Interp:
             self.env[target.id] = v
         elif isinstance(target, (ast.Tuple, ast.List)):
             parts = None
+            has_tup = any(isinstance(x, Tup) and len(x.es) == len(
+                target.elts) for x in flat(v))
             for x in flat(v):
+                if has_tup and isinstance(x, (S, Zero)):
+                    # a scalar alternative (e.g. the None of a failed
+                    # look-up) cannot be unpacked: that path does not get
+                    # here
+                    continue
                 if isinstance(x, Tup) and len(x.es) == len(target.elts):
                     parts = x.es if parts is None else [
                         join(a, b) for a, b in zip(parts, x.es)]
